@@ -238,3 +238,189 @@ func tableVarImmutable(prog *Program, w *strWriter) bool {
 
 var _ = sort.Strings
 var _ = strings.TrimSpace
+
+// ruleSENStringWriter (C10): the quoting decision of ojg.AppendSENString agrees
+// with the tables of the SEN reader.
+func ruleSENStringWriter(prog *Program, rep *Report) {
+	rep.Rules = append(rep.Rules,
+		"G-sen-first: a first byte that does not force quotes in AppendSENString must start a bare token in the reader's start mode",
+		"G-sen-inner: a byte that does not force quotes inside the loop must continue a bare token in the reader's token table",
+		"G-sen-quoted: inside quotes a raw byte must be a plain byte of the reader's string table and an escape \\L must be accepted by the reader's escape table and decode (reader's decode table) to the byte that was written; \\u00XY must denote the byte",
+		"G-sen-reserved: every spelling the reader maps to a non-string (switch cases on the token text) must be compared against in the writer so that it is quoted")
+	w, err := findStrWriter(prog, "", "AppendSENString")
+	if err != nil {
+		rep.Errorf("%v", err)
+		return
+	}
+	if !tableVarImmutable(prog, w) {
+		rep.Errorf("AppendSENString: quoting table is assigned somewhere; its initialiser is not its value")
+		return
+	}
+	rt, err := senReaderTables(prog)
+	if err != nil {
+		rep.Errorf("%v", err)
+		return
+	}
+	info := w.pk.TypesInfo
+	// the writer's table (the one indexed by b in the loop)
+	var wtab string
+	ast.Inspect(w.loop.Body, func(n ast.Node) bool {
+		if ix, ok := n.(*ast.IndexExpr); ok && useObj(info, ix.Index) == w.bObj {
+			if v, ok := w.in.constCache[ix.X]; ok {
+				wtab, _ = v.isStr()
+			}
+		}
+		return true
+	})
+	if len(wtab) < 256 {
+		rep.Errorf("AppendSENString: quoting table not found")
+		return
+	}
+	// first-byte decision: the statement that defines the boolean flag returned on (quote)
+	var quoteObj types.Object
+	var quoteDef *ast.AssignStmt
+	var mObj types.Object
+	for _, st := range w.fd.Body.List {
+		as, ok := st.(*ast.AssignStmt)
+		if !ok || len(as.Lhs) != 1 {
+			continue
+		}
+		o := info.Defs[identOf(as.Lhs[0])]
+		if o == nil {
+			continue
+		}
+		if bt, ok := o.Type().Underlying().(*types.Basic); ok && bt.Info()&types.IsBoolean != 0 && quoteObj == nil {
+			quoteObj, quoteDef = o, as
+		}
+		// m := TABLE[s[0]]
+		if ix, ok := as.Rhs[0].(*ast.IndexExpr); ok {
+			if _, isTab := w.in.constCache[ix.X]; isTab {
+				mObj = o
+			}
+		}
+	}
+	if quoteObj == nil || mObj == nil {
+		rep.Errorf("AppendSENString: first-byte quoting decision not found")
+		return
+	}
+	cells := 0
+	for _, html := range []bool{false, true} {
+		for b := 0; b < 256; b++ {
+			cells++
+			// first byte
+			st := newState()
+			st.locals[mObj] = vConstInt(int64(wtab[b]))
+			st.locals[w.params["htmlSafe"]] = vConstBool(html)
+			mayBare := false
+			w.in.undecided = nil
+			for _, e := range w.in.exec(quoteDef, st) {
+				if bv, ok := e.st.locals[quoteObj].isBool(); !ok || !bv {
+					mayBare = true
+				}
+			}
+			for _, u := range w.in.undecided {
+				rep.Errorf("AppendSENString undecided: %s", u)
+			}
+			key := fmt.Sprintf("AppendSENString:%s:html=%v", byteName(b), html)
+			outs, und := w.perByte(b, map[string]Val{"htmlSafe": vConstBool(html), quoteObj.Name(): vConstBool(false)})
+			for _, u := range und {
+				rep.Errorf("AppendSENString undecided: %s", u)
+			}
+			forces := true // does every path for this byte force quotes?
+			for _, o := range outs {
+				if o.Flags[quoteObj.Name()] != "true" {
+					forces = false
+				}
+			}
+			if mayBare && !forces {
+				if at(rt.value, b) != rt.tokenStart {
+					rep.Violate(Finding{Rule: "G-sen-first", Key: key + ":first", Pos: prog.Pos(w.fd.Pos()),
+						Msg: fmt.Sprintf("a string starting with byte %s can be written without quotes, but the SEN reader does not start a token on that byte (start-mode code %q)", byteName(b), rune(at(rt.value, b)))})
+				} else {
+					rep.Discharge("G-sen-first", key+":first", prog.Pos(w.fd.Pos()), "bare first byte starts a reader token")
+				}
+			}
+			if !forces {
+				if at(rt.token, b) != rt.tokenOk {
+					rep.Violate(Finding{Rule: "G-sen-inner", Key: key + ":inner", Pos: prog.Pos(w.fd.Pos()),
+						Msg: fmt.Sprintf("byte %s inside a string does not force quotes, but the SEN reader's token table does not continue a token on it (code %q)", byteName(b), rune(at(rt.token, b)))})
+				} else {
+					rep.Discharge("G-sen-inner", key+":inner", prog.Pos(w.fd.Pos()), "non-forcing byte continues a reader token")
+				}
+			}
+			// quoted form
+			bad := ""
+			for _, o := range outs {
+				switch {
+				case o.Unknown:
+					bad = "emits bytes that are not constants"
+				case o.Raw && len(o.Emit) > 0:
+					bad = "is escaped and also left in the raw segment"
+				case o.Raw:
+					// the other quote character is a delimiter code in the string table but plain inside "..."
+					if at(rt.str, b) != rt.strOk && !(at(rt.str, b) == at(rt.str, '"') && b != '"') && b < 0x80 && forces {
+						bad = fmt.Sprintf("is written raw inside quotes but is not a plain byte of the reader's string table (code %q)", rune(at(rt.str, b)))
+					}
+					if b == '"' {
+						bad = "is written raw inside double quotes"
+					}
+				case len(o.Emit) == 0:
+					bad = "is dropped"
+				default:
+					kind, den, letter := classifyEscape(o.Emit)
+					switch kind {
+					case "u00":
+						if den != b {
+							bad = fmt.Sprintf("is written as \\u%04x", den)
+						}
+						if at(rt.esc, 'u') != rt.escU {
+							bad = "is written as \\u00XX but the reader's escape table has no u"
+						}
+					case "letter":
+						if c := at(rt.esc, letter); c != rt.escOk {
+							bad = fmt.Sprintf("is written as \\%c which the reader's escape table rejects", letter)
+						} else if d := at(rt.decode, letter); d != int64(b) {
+							bad = fmt.Sprintf("is written as \\%c which the reader decodes to 0x%02x", letter, d)
+						}
+					case "uXXXX":
+						if b < 0x80 {
+							bad = fmt.Sprintf("is written as \\u%04x", den)
+						}
+					default:
+						bad = fmt.Sprintf("is written as %q", intsToString(o.Emit))
+					}
+				}
+				if bad != "" {
+					break
+				}
+			}
+			if bad != "" {
+				rep.Violate(Finding{Rule: "G-sen-quoted", Key: key + ":quoted", Pos: prog.Pos(w.fd.Pos()), Msg: "byte " + byteName(b) + " " + bad})
+			} else {
+				rep.Discharge("G-sen-quoted", key+":quoted", prog.Pos(w.fd.Pos()), "raw plain byte or escape the reader decodes to the same byte")
+			}
+		}
+	}
+	rep.Eval(cells)
+	// reserved spellings
+	if len(rt.reserved) == 0 {
+		rep.Errorf("sen reader: no reserved spellings found (anchor did not resolve)")
+	}
+	consts := map[string]bool{}
+	ast.Inspect(w.fd.Body, func(n ast.Node) bool {
+		if e, ok := n.(ast.Expr); ok {
+			if tv := info.Types[e].Value; tv != nil && tv.Kind() == constant.String {
+				consts[constant.StringVal(tv)] = true
+			}
+		}
+		return true
+	})
+	for _, r := range rt.reserved {
+		key := "AppendSENString:reserved:" + r
+		if consts[r] {
+			rep.Discharge("G-sen-reserved", key, prog.Pos(w.fd.Pos()), "writer compares against the reserved spelling")
+		} else {
+			rep.Violate(Finding{Rule: "G-sen-reserved", Key: key, Pos: prog.Pos(w.fd.Pos()), Msg: fmt.Sprintf("the SEN reader maps the bare token %q to a non-string value, but the writer never compares a string with it: the string %q is written unquoted and read back as a different type", r, r)})
+		}
+	}
+}
